@@ -1056,8 +1056,10 @@ SPECS = {
                             "ttl0-hit-same-instant", "ttl0-miss-later", "private-cross-miss", "handle-reused", "service-value-reused",
                             "layer-clone-requested", "listeners-probed", "eviction-listener-fired", "builder-default-max", "builder-default-policy",
                             "builder-via-new", "builder-via-default", "evict-at-default-max"],
-        "model_modules": ["TR.Model.Cache", "TR.Lemmas.Cache", "TR.Lemmas.CacheFifo", "TR.Lemmas.CacheTtl", "TR.Lemmas.CacheLayer"],
-        "lean_files": ["TR.Model.Cache", "TR.Lemmas.Cache", "TR.Lemmas.CacheFifo", "TR.Lemmas.CacheTtl", "TR.Lemmas.CacheLayer"],
+        "model_modules": ["TR.Model.Cache", "TR.Lemmas.Cache", "TR.Lemmas.CacheFifo", "TR.Lemmas.CacheTtl", "TR.Lemmas.CacheLayer",
+                          "TR.Lemmas.CacheLog", "TR.Lemmas.CacheRecency", "TR.Lemmas.CacheResult", "TR.Lemmas.CacheSince", "TR.Lemmas.CacheWhen"],
+        "lean_files": ["TR.Model.Cache", "TR.Lemmas.Cache", "TR.Lemmas.CacheFifo", "TR.Lemmas.CacheTtl", "TR.Lemmas.CacheLayer",
+                          "TR.Lemmas.CacheLog", "TR.Lemmas.CacheRecency", "TR.Lemmas.CacheResult", "TR.Lemmas.CacheSince", "TR.Lemmas.CacheWhen"],
         "sizes": (720, 40000),
         "rule": "seeded random op sequences (arrive key=1..6 / poll / drop / adv / settle) against the real CacheLayer and SharedCacheLayer "
                 "(two services), policy lru/lfu/fifo, max_size 1..4 (2% max_size=0), ttl none/1..10/20..60 ms, inner latency 0..20 ms with "
@@ -1095,7 +1097,15 @@ SPECS = {
                       "victim_fifo_oldest_stored, cap_is_max, ttl_zero_served_only_at_store_instant, zero_ttl_is_not_no_ttl, "
                       "stores_step_independently, request_on_other_service_leaves_store_alone, poll_of_other_service_leaves_store_alone, "
                       "shared_layer_one_store, private_layer_store_per_service, size_bounded_per_store, hit_is_latest_per_store, "
-                      "builder_defaults_ok}: for every operation sequence (any key space, any interleaving of lookups, "
+                      "builder_defaults_ok, read_is_two_phase, promote_then_remove_is_remove, two_phase_read_is_one_phase, "
+                      "present_unexpired_key_hits, present_key_hits_without_ttl, absent_key_misses, echo_determines_request, "
+                      "log_bookkeeping, call_key_is_request_key, spec_map_is_last_ok_completion, "
+                      "hit_returns_last_stored_response_of_its_key, hit_has_request_in_log, miss_returns_own_response, "
+                      "lru_order_is_log_recency, victim_lru_log, one_result_per_caller, insertion_is_unique, "
+                      "lfu_count_is_accesses_since_insertion, lfu_count_step, victim_lfu_log, fifo_queue_is_insertion_order, "
+                      "victim_fifo_first_inserted, clock_is_sum_of_advances, hit_not_older_than_ttl_in_history, "
+                      "hit_returns_last_stored_response_per_store, victim_lru_log_per_store}: "
+                      "for every operation sequence (any key space, any interleaving of lookups, "
                       "completions, cancellations and time advances, concurrent misses on one key), every policy, every max_size >= 1, TTL "
                       "absent or any value, every LFU victim choice: the store never exceeds max_size and holds no key twice; it refines the "
                       "specification map key -> (value, instant) of the latest Ok completion; a hit returns exactly that value, stored no "
@@ -1110,7 +1120,19 @@ SPECS = {
                       "at the instant of its store only and misses as soon as it has any age (a different configuration from 'no TTL'); the "
                       "stores of several services built from a plain CacheLayer value are independent (an operation steps the store it "
                       "concerns and leaves every other store exactly as it was; each store satisfies every statement above on its own), a "
-                      "shared layer has one store that sees the whole history. Proved by three inductive invariants over all histories. The model is tied to the "
+                      "shared layer has one store that sees the whole history. The ghost maps are functions of the event log the correspondence check "
+                      "compares (the echo line determines caller, key and service; callKey v = k iff the log shows inner_call c v of a caller "
+                      "whose echo has key k; the specification map holds v for k iff the LAST inner_done _ v ok of a caller whose echo has "
+                      "key k carries v), and the clauses are restated over the log alone: a caller answered ok:v without an inner call of "
+                      "its own got the response of the last inner call for its key that completed Ok before its request, in log order, "
+                      "a response of a call made for that key and for no other; a miss gets the response of its own call; one result per "
+                      "caller; under LRU the container is sorted by recency in the log (access = echo of a request served from the cache "
+                      "or successful completion for the key) and the victim is the resident key accessed least recently; under LFU an "
+                      "entry's count is the number of accesses of its key among the log lines written since the operation that inserted "
+                      "it; under FIFO the queue is in the order of the inserting operations and the victim is the key inserted first; the clock is the sum of the advances and a hit's value was stored by a completing "
+                      "operation of the history since which the advances sum to at most the TTL. The "
+                      "read path is modelled in the code's two phases (container get, then expiry test and remove) and promote-then-remove "
+                      "= remove is proved. Proved by inductive invariants over all histories. The model is tied to the "
                       "real CacheLayer / SharedCacheLayer by line-for-line agreement of event logs on generated histories.",
         "level_note": LEVEL_NOTE,
         "trusted": ["lru::LruCache / HashMap / VecDeque semantics as transcribed in TR.Model.Cache (sampled by the correspondence check)",
